@@ -122,9 +122,10 @@ def main():
     # 3. keep
     dst = os.path.join(ROOT, "seeded", name)
     os.makedirs(dst, exist_ok=True)
-    shutil.copy(patch, os.path.join(dst, "patch.diff"))
-    for d in demos:
-        shutil.copy(d, os.path.join(dst, os.path.basename(d)))
+    if os.path.abspath(sdir) != os.path.abspath(dst):
+        shutil.copy(patch, os.path.join(dst, "patch.diff"))
+        for d in demos:
+            shutil.copy(d, os.path.join(dst, os.path.basename(d)))
     meta["confirmation"] = obs
     meta["checks_run"] = detected
     meta["detected"] = any(v["exit"] != 0 for v in detected.values())
